@@ -34,6 +34,12 @@ CHECKS = {
  "C16": dict(cat="exploration", tech="invocation-counter and recovery-hook oracles at sync markers under injected panics and permanently parked background handlers; dead-state proof when a marker is not reached",
    text="User foreground/background and built-in handlers are made to panic with five value kinds at PRNG positions under the default and a custom recovery, next to 0..8 background handlers that never return; at markers every well-behaved handler's count must equal the number of events, the recovery function must have run once per panic with that value and line (default: an error record), and later markers must be reached. Held on the sessions explored.",
    note="Trusted: counters are atomic; a marker not reached is a violation only with a goroutine-census dead-state proof.", ref="§4 C16"),
+ "C06": dict(cat="fault_enumeration", tech="fault enumeration on an in-memory transport (cause pairs fired from one barrier) with lifecycle counters, Connected() samples inside handlers and a goroutine-census quiescence oracle; crash journal; race detector",
+   text="Every single end cause and every unordered pair of causes (Close from 1/3/8 goroutines, EOF, read error, write error, context cancel) is fired against connections in seven traffic states and five configurations, plus second-Connect-while-connected, failing connects and Close on an unconnected client; REGISTER/DISCONNECTED counts, Connected() samples taken inside the handlers and return values are judged once the goroutine census shows no library goroutine. The cause/traffic grid is enumerated completely; the schedules inside each scenario are sampled (GOMAXPROCS 1,2,4,16, repetitions).",
+   note="Trusted: the in-memory net.Conn's fault injection reflects what a socket does (a peer that is gone also fails writes); a teardown that never completes is reported by C07, here it is inconclusive.", ref="§4 C06"),
+ "C07": dict(cat="fault_enumeration", tech="goroutine-census wait-for (dead-state) oracle for completion, leak census after DISCONNECTED, wire transcript and tracker/Config().Me checks of every next connection; curated + PRNG fault scenarios; race detector",
+   text="Teardown is driven with inbound backlogs up to 300 lines, outbound backlogs up to 200 lines from handlers or user goroutines against reading/non-reading/bursty servers, handlers idle, gated or blocked in a send, all causes and pairs, 1..5 reconnect cycles from inside the DISCONNECTED handler or another goroutine, tracking on/off. 'Bounded time' is restated as reaching completion without further input; a stuck teardown is a violation only with a proof (two identical all-blocked censuses, no library timer pending). Held on the scenarios and schedules explored.",
+   note="Trusted: the dead-state argument (in-memory transport, no external input, harness goroutines never park on timers); flood control off in these scenarios.", ref="§3.5, §4 C07"),
 }
 
 NOT_BUILT = "check not built yet in this round (planned, see DESIGN.md §4)"
